@@ -143,7 +143,16 @@ class Externals(object):
             raise Unsupported("re.compile of non-constant", node)
         if mod.name == "copy" and name == "deepcopy":
             from .heap import deep_copy
-            ctx.assumed.add("A2:copy.deepcopy yields a disjoint structurally equal graph")
+            # the assumed contract of copy.deepcopy holds for classes that do not customise copying; a repository class
+            # with a copy hook makes the result whatever the hook builds, which this stub does not execute
+            hooks = ("__deepcopy__", "__copy__", "__reduce__", "__reduce_ex__", "__getstate__", "__setstate__", "__getnewargs__")
+            for minfo in interp.program.modules.values():
+                for cinfo in minfo.classes.values():
+                    for hname in hooks:
+                        if hname in cinfo.methods:
+                            raise Unsupported("copy.deepcopy over a graph whose class %s defines %s: the assumed contract of "
+                                              "deepcopy (disjoint, structurally equal) does not apply" % (cinfo.name, hname), node)
+            ctx.assumed.add("A2:copy.deepcopy yields a disjoint structurally equal graph (no repository class defines a copy hook: checked on every run)")
             return deep_copy(args[0])
         if mod.name == "flask" and name == "jsonify":
             ctx.assumed.add("A3:flask.jsonify(**kw) returns its payload")
